@@ -16,8 +16,111 @@ func init() {
 // create evaluators concurrently.  Built with -race by the orchestrator: the race detector's
 // happens-before analysis makes the verdict independent of the schedule observed; results are
 // compared with the sequential run.
+func evalFresh(text string, opts []OptSpec, d interface{}) string {
+	ev, cans := create(text, opts)
+	if ev == nil {
+		return cans
+	}
+	return safeEvaluate(ev, d)
+}
+
 func fragConc(g *Gen, n int, o *Out) {
 	const k = 8
+	// shared runs one evaluator on the data from k goroutines (first use happens concurrently) and
+	// compares every answer with a fresh evaluator's sequential answer.
+	shared := func(text string, opts []OptSpec, data []interface{}, i int) *bexpr.Evaluator {
+		// sequential reference with a fresh evaluator per datum
+		want := make([]string, len(data))
+		for j, d := range data {
+			ev, cans := create(text, opts)
+			if ev == nil {
+				want[j] = cans
+			} else {
+				want[j] = safeEvaluate(ev, d)
+			}
+		}
+		ev, cans := create(text, opts)
+		o.count("conc:create:" + cans)
+		if ev == nil {
+			return nil
+		}
+		// first use happens concurrently
+		var wg sync.WaitGroup
+		got := make([][]string, k)
+		for w := 0; w < k; w++ {
+			wg.Add(1)
+			go func(w int) {
+				defer wg.Done()
+				res := make([]string, 0, 3*len(data))
+				for rep := 0; rep < 3; rep++ {
+					for j := range data {
+						res = append(res, safeEvaluate(ev, data[(j+w)%len(data)]))
+					}
+				}
+				got[w] = res
+			}(w)
+		}
+		wg.Wait()
+		o.meta.Cases++
+		o.meta.Distinct++
+		for w := 0; w < k; w++ {
+			for idx, r := range got[w] {
+				j := (idx%len(data) + w) % len(data)
+				o.count("conc:" + norm(r))
+				if r != want[j] {
+					o.finding(Finding{Property: "C12", Kind: "failing-schedule", What: fmt.Sprintf("concurrent Evaluate returned %s, sequential %s", r, want[j]), Detail: text,
+						Request: fmt.Sprintf("harness-race -frag conc (case %d)", i)})
+				}
+			}
+		}
+		return ev
+	}
+	// quantifiers over collection paths of 1..7 segments (the parser grows a selector's path slice
+	// one append at a time, so its spare capacity depends on the length), alone and together with
+	// the per-call options; every goroutine sees a list of another length
+	for depth := 1; depth <= 7; depth++ {
+		segs := []string{"a", "b", "c", "d", "e", "f", "g"}[:depth]
+		mk := func(n int) interface{} {
+			list := make([]interface{}, n)
+			for j := range list {
+				list[j] = j
+			}
+			list[n-1] = 7
+			var d interface{} = list
+			for j := depth - 1; j >= 0; j-- {
+				d = map[string]interface{}{segs[j]: d}
+			}
+			return d
+		}
+		data := []interface{}{mk(2), mk(6), mk(11), mk(23)}
+		dotted, pointer := "", "\"/"
+		for j, sg := range segs {
+			if j > 0 {
+				dotted += "."
+				pointer += "/"
+			}
+			dotted += sg
+			pointer += sg
+		}
+		pointer += "\""
+		for vi, sel := range []string{dotted, pointer} {
+			for oi, opts := range [][]OptSpec{nil, {{Kind: "unk", Unk: ""}}, {{Kind: "hook", Hook: "identity"}}, {{Kind: "unk", Unk: "u"}, {Kind: "hook", Hook: "identity"}}} {
+				body := "v == 7"
+				if oi%2 == 1 {
+					body = "v == 7 and absent != \"zz\""
+				}
+				for _, text := range []string{
+					fmt.Sprintf("any %s as v { %s }", sel, body),
+					fmt.Sprintf("all %s as i, v { i != 99 and (%s or v != 7) }", sel, body),
+				} {
+					if vi == 1 && depth > 4 && oi > 1 {
+						continue
+					}
+					shared(text, opts, data, -depth)
+				}
+			}
+		}
+	}
 	for i := 0; i < n; i++ {
 		proto, root, paths := datumAndPaths(g, "bexpr")
 		e := g.genExpr(root, "bexpr", paths, 2, false)
@@ -53,49 +156,9 @@ func fragConc(g *Gen, n int, o *Out) {
 				data = append(data, g.randDatum())
 			}
 		}
-		// sequential reference with a fresh evaluator per datum
-		want := make([]string, len(data))
-		for j, d := range data {
-			ev, cans := create(text, opts)
-			if ev == nil {
-				want[j] = cans
-			} else {
-				want[j] = safeEvaluate(ev, d)
-			}
-		}
-		ev, cans := create(text, opts)
-		o.count("conc:create:" + cans)
+		ev := shared(text, opts, data, i)
 		if ev == nil {
 			continue
-		}
-		// first use happens concurrently
-		var wg sync.WaitGroup
-		got := make([][]string, k)
-		for w := 0; w < k; w++ {
-			wg.Add(1)
-			go func(w int) {
-				defer wg.Done()
-				res := make([]string, 0, 3*len(data))
-				for rep := 0; rep < 3; rep++ {
-					for j := range data {
-						res = append(res, safeEvaluate(ev, data[(j+w)%len(data)]))
-					}
-				}
-				got[w] = res
-			}(w)
-		}
-		wg.Wait()
-		o.meta.Cases++
-		o.meta.Distinct++
-		for w := 0; w < k; w++ {
-			for idx, r := range got[w] {
-				j := (idx%len(data) + w) % len(data)
-				o.count("conc:" + norm(r))
-				if r != want[j] {
-					o.finding(Finding{Property: "C12", Kind: "failing-schedule", What: fmt.Sprintf("concurrent Evaluate returned %s, sequential %s", r, want[j]), Detail: text,
-						Request: fmt.Sprintf("harness-race -frag conc (case %d)", i)})
-				}
-			}
 		}
 		// filters shared by goroutines
 		if i%4 == 0 {
@@ -145,8 +208,9 @@ func fragConc(g *Gen, n int, o *Out) {
 				}(w)
 			}
 			wg3.Wait()
+			want0 := evalFresh(text, opts, data[0])
 			for w := 0; w < k; w++ {
-				if res[w] != want[0] {
+				if res[w] != want0 {
 					o.finding(Finding{Property: "C12", Kind: "failing-schedule", What: "evaluator created concurrently behaves differently", Detail: text})
 				}
 			}
